@@ -111,6 +111,7 @@ async fn run_async(ctx: &mut Ctx, which: Which) {
     verif::net::install();
     let n = 2 + ctx.tape.choose(4) as usize;
     let mut nodes: Vec<FNode> = vec![];
+    let session_knobs = ctx.tape.choose(3) == 0;
     for i in 0..n {
         let identity = 40 + i + 8 * ctx.tape.choose(4) as usize;
         let addr = faddr(i);
@@ -121,11 +122,11 @@ async fn run_async(ctx: &mut Ctx, which: Which) {
         let enr = ident::record(ident::RecSpec { ident: identity, seq: 1, ip4: Some((ip, addr.port())), ip6: None, pad: 0 });
         let mut node = FNode { ident: identity, id: ident::pool()[identity].id, addr, enr, d: None, ep: None, events: None, timeout_ms: *ctx.tape.pick(&[500u64, 1000]), retries: 1 + ctx.tape.choose(2) as u8, session_cap: 1000, session_ttl_ms: 86_400_000 };
         // tuning knobs: tiny session cache / short session lifetime, so that sessions vanish mid-exchange
-        if ctx.tape.choose(4) == 0 {
+        if session_knobs && ctx.tape.choose(2) == 0 {
             node.session_cap = 1 + ctx.tape.choose(2) as usize;
             ctx.fault("tiny_session_cache");
         }
-        if ctx.tape.choose(4) == 0 {
+        if session_knobs && ctx.tape.choose(2) == 0 {
             node.session_ttl_ms = *ctx.tape.pick(&[300u64, 1500, 5000]);
             ctx.fault("short_session_lifetime");
         }
